@@ -13,7 +13,7 @@
      rfc t                Rfc3986.v: the RFC production as a regular expression; matches = its denotation.
      bytes_ok s           every element of s is < 256. *)
 From Coq Require Import ZArith.
-From PegtlV Require Import Base Grammar Engine ExactSound Regex RegexIncl Rfc3986 UriModel UriProof UriSoundURI UriSoundAbs UriSoundRef.
+From PegtlV Require Import Base Grammar Engine ExactSound Regex RegexIncl RegexQuot Rfc3986 UriModel UriProof UriSoundURI UriSoundAbs UriSoundRef UriComplete UriCompleteV6.
 From PegtlV Require IntegerSpec.
 
 (* ---- the specification-side recogniser is exact (this is the oracle the check extracts) ---- *)
@@ -87,6 +87,25 @@ Theorem C20_exact_IPv4address : forall s, bytes_ok s -> (uri_accepts TIPv4addres
 Proof. exact UriProof.exact_IPv4address. Qed.
 Print Assumptions C20_exact_IPv4address.
 
+(* ---- IPv6address is exact as well.  Completeness of a PEG against its regular reading is not automatic (ordered
+        choice commits to the first alternative that matches a prefix); UriComplete.v proves it generically for the
+        fragment atoms / seq / sor / opt / rep / rep_opt / rep_min_max / maximum_rule / eof under side conditions on
+        regular languages (left quotients and first-byte exclusions) that a verified checker evaluates on the
+        generated table:  cc = the certificate, cc_sound = its soundness. ---- *)
+Theorem C20_complete_certificate_sound :
+  forall G MX, AtomFacts.table_wf G -> forall n r K R nf, cc G MX n r K = true -> re_of G MX n r = Some (R, nf) ->
+  Tot G MX n r /\ CmpR G MX n r R K /\ FolOK G MX n r.
+Proof. exact UriComplete.cc_sound. Qed.
+Print Assumptions C20_complete_certificate_sound.
+
+Theorem C20_complete_IPv6address : forall s, bytes_ok s -> matches (rfc TIPv6address) s -> uri_accepts TIPv6address s.
+Proof. exact UriCompleteV6.complete_IPv6address. Qed.
+Print Assumptions C20_complete_IPv6address.
+
+Theorem C20_exact_IPv6address : forall s, bytes_ok s -> (uri_accepts TIPv6address s <-> matches (rfc TIPv6address) s).
+Proof. exact UriCompleteV6.exact_IPv6address. Qed.
+Print Assumptions C20_exact_IPv6address.
+
 (* the dec_octet leaf: maximum_rule< uint8_t, 255 > (C15 model) accepts exactly the RFC dec-octet strings *)
 Theorem C20_dec_octet_numeral : forall w, bytes_ok w -> matches Rfc3986.dec_octet w ->
   IntegerSpec.unsigned_numeral w /\ (IntegerSpec.unsigned_value w <= 255)%Z.
@@ -98,23 +117,17 @@ Theorem C20_numeral_dec_octet : forall ds, IntegerSpec.unsigned_numeral ds -> (I
 Proof. exact UriProof.numeral_dec_octet. Qed.
 Print Assumptions C20_numeral_dec_octet.
 
-(* ---- NOT closed (shipped as comments, no theorem):
-
-   C20_complete_IPv6address (targeted):
-       forall s, bytes_ok s -> matches (rfc TIPv6address) s -> uri_accepts TIPv6address s.
-     Missing: a completeness argument for ordered choice (an earlier alternative of uri::IPv6address must be shown
-     to FAIL, not merely to be unnecessary, on every string of a later alternative) and for the greedy
-     opt< h16, rep_opt< n, colon, h16 > > prefixes.  Supported today only by the oracle comparison of the check
-     (every IPv6 alternative, every group count 0..8 on both sides of "::", embedded IPv4 tails, all single-edit
-     mutations, all strings of length <= 5 over the class representatives): no disagreement.
+(* ---- NOT closed (shipped as a comment, no theorem):
 
    C20_complete_partial (URI, URI_reference, absolute_URI), the statement that is expected to be TRUE:
        forall t s, t is one of TURI / TURI_reference / Tabsolute_URI -> bytes_ok s -> matches (rfc t) s ->
          ~ (the RFC reading of s has an authority whose host is a reg-name with an IPv4address as PROPER prefix) ->
          uri_accepts t s.
-     The unrestricted statement is refuted (C20_complete_refuted).  Missing: the same completeness argument as
-     above for sor<> / star<> / opt<> over the whole URI table.  What IS closed towards it: C20_exact_IPv4address
-     (both directions for the IPv4address production, through the C15 model of maximum_rule) and the five
-     soundness theorems.  The check classifies every oracle disagreement against exactly the excluded class
-     (host = reg-name with IPv4address proper prefix AND the same input with a non-IPv4 host is accepted);
-     anything outside it is reported as a new violation. *)
+     The unrestricted statement is refuted (C20_complete_refuted, _URI, _absolute_URI).  Missing: the certificate of
+     UriComplete.v covers neither star / plus (needs a termination argument: fuel >= input length) nor must / if_must
+     (needs "an alternative that is not the right one fails WITHOUT raising", i.e. a commit-point analysis), and the
+     host rule needs the hypothesis above threaded through the quotient condition of its sor.  What IS closed towards
+     it: exactness of IPv4address and IPv6address (the two non-trivial leaves of host), the five soundness theorems.
+     The check classifies every oracle disagreement against exactly the excluded class (host = reg-name with
+     IPv4address proper prefix AND the same input with a non-IPv4 host is accepted); anything outside it is reported
+     as a new violation. *)
